@@ -1252,7 +1252,7 @@ def run_task(task, tr):
 
 # the thorough tier keeps ~35 tasks x 3 solver processes busy on 16 cores: wall-clock solver budgets are scaled so
 # that contention does not turn decidable goals into 'unknown'
-TSCALE = 8.0 if os.environ.get('VERIF_TIER') == 'thorough' else 1.0
+TSCALE = 4.0 if os.environ.get('VERIF_TIER') == 'thorough' else 1.0
 
 
 def tasks_for(tier):
